@@ -805,13 +805,19 @@ func vC07Behaviour(t *testing.T, srv *Server, b vBehaviour) ([]vC07Event, bool, 
 	for _, x := range b.Cfg["isr"].([]interface{}) {
 		isr = append(isr, x.(string))
 	}
+	var lastErr error
 	for attempt := 1; attempt <= vC07Attempts; attempt++ {
 		run := &vC07Run{t: t, srv: srv, id: b.ID, stream: fmt.Sprintf("c07-%d-%d", b.ID, attempt)}
 		tc := time.Now()
 		err := run.create(isr)
 		vC07Stat("create", time.Since(tc))
 		if err != nil {
-			return nil, false, fmt.Errorf("behaviour %d: create stream: %v", b.ID, err)
+			// a Raft proposal that does not get through within its deadline is, on a
+			// starved machine, a matter of load: the attempt is repeated; only when
+			// every attempt fails the run is abandoned (inconclusive)
+			lastErr = err
+			vC07Stat("create-failed", 0)
+			continue
 		}
 		evs := []vC07Event{{T: b.ID, A: "Open", Args: map[string]interface{}{}, St: run.state(),
 			Obs: vC07Obs{A: "Open"}}}
@@ -830,6 +836,9 @@ func vC07Behaviour(t *testing.T, srv *Server, b vBehaviour) ([]vC07Event, bool, 
 		if good {
 			return evs, true, nil
 		}
+	}
+	if lastErr != nil {
+		return nil, false, fmt.Errorf("behaviour %d: create stream: %v", b.ID, lastErr)
 	}
 	return nil, false, nil
 }
